@@ -291,7 +291,7 @@ theorem nvf_step (reg : Bool) (N : Nat) (hF : NVF reg N) (hFld : NVFld reg N) : 
   | ptr e =>
     have he : goodT (snU sn T) e = true := by simpa [goodT] using hgu.1
     rcases wt_ptr_inv hU hw with rfl | ⟨x, rfl, hx⟩
-    · intro h; cases h
+    · rw [foldF_ptr_nil _ _ _ (customOf_good reg he)]; intro h; cases h
     · rw [foldF_ptr]
       rw [vdepth_ptr] at hd hm
       exact hF _ e x (by omega) he hx (by simpa [dynSmall] using hs) m' (by omega)
